@@ -159,6 +159,15 @@ class Model:
         if isinstance(x, dict):
             if self.faults is not None:
                 self.faults.tick('model')
+            watched = getattr(self, 'watched', None)
+            if watched is not None:
+                # a monitoring hook: the model callback READS the explainer's public estimates while explain_one is running
+                self.watched_reads = getattr(self, 'watched_reads', 0) + 1
+                for attr in ('importance_values', 'variances'):
+                    try:
+                        dict(getattr(watched, attr))
+                    except Exception:
+                        pass
             if self.spec.get('memo'):
                 # a memoising / lookup-table model: equal inputs get THE SAME prediction object back (a deterministic model may do that)
                 key = tuple(sorted(((repr(k), repr(v)) for k, v in x.items())))
@@ -221,6 +230,15 @@ class Loss:
     def pure(self, y, pred):
         kind = self.spec['kind']
         c = self.spec.get('c', [0, 1, 1, 1])
+        if kind == '01':
+            # the natural zero-one loss: a Python BOOL (bool - bool is an int; np.diff / np.subtract on bool arrays is not subtraction)
+            s = self.zero
+            for l in sorted(pred, key=repr):
+                p = pred[l]
+                if hasattr(p, 'reshape') and getattr(p, 'size', 0) == 1:
+                    p = p.reshape(-1)[0]
+                s = s + p
+            return bool(s > y)
         tot = self.zero
         for l in sorted(pred, key=repr):
             p = pred[l]
@@ -242,7 +260,7 @@ class Loss:
         return tot
 
     def nonlinear(self):
-        return self.spec['kind'] in ('sq', 'abs') or (self.spec['kind'] == 'poly' and self.spec['c'][2] != 0)
+        return self.spec['kind'] in ('sq', 'abs', '01') or (self.spec['kind'] == 'poly' and self.spec['c'][2] != 0)
 
     def __deepcopy__(self, memo):
         return self        # user callbacks are shared, not copied
